@@ -17,3 +17,8 @@ package sunlight
 //@ pure func sigTimestamp(sig note.Signature) int
 //@ func sunlight.RFC6962SignatureTimestamp props C11 C20
 //@   defines ret1 == nil ==> ret0 == sigTimestamp(sig)
+
+//@ func sunlight.ReadTileLeaf props C08 C10
+//@   defines ret2 == nil ==> ret0 != nil && *ret0 == parsedLeaf(tile) && ret1 == leafRest(tile)
+//@ func sunlight.(*LogEntry).MerkleTreeLeaf props C08 C10
+//@   defines ret == mtlOf(*e)
